@@ -215,7 +215,8 @@ def rule_guard_first(run: Run, prog: Program, sites, exc_name: str) -> None:
         derived = set(tested)
         for v in list(tested):
             for st in binds.get(v, []):
-                if isinstance(st, ast.Assign) and st.lineno < rs.lineno:
+                if isinstance(st, ast.Assign) and st.lineno < rs.lineno and not any(
+                        isinstance(x, ast.Call) and isinstance(x.func, ast.Attribute) and x.func.attr in MUTATORS for x in ast.walk(st.value)):
                     derived |= _names(st.value)
         locals_tested = {v for v in derived if v in binds and v not in params and not _is_callable_name(prog, fn, v)}
         guard_line = min(g[1].lineno for g in guards)
